@@ -76,13 +76,13 @@ class _Timeout(Exception):
 
 
 def _alarm(*_):
-    raise _Timeout("no result after 20 s (non-termination)")
+    raise _Timeout("no result after 5 s (non-termination)")
 
 
 def guarded(fn, *a, **kw):
     """run a call into the library with a watchdog (a hang is a failure, not a harness crash)"""
     old = signal.signal(signal.SIGALRM, _alarm)
-    signal.alarm(20)
+    signal.alarm(5)
     try:
         return fn(*a, **kw)
     finally:
@@ -189,7 +189,7 @@ def oracle_roundtrip(data: bytes, iv, modes=MODES, want_json=True):
                           "what": f"parse then encode differs from the input at byte {i} (lengths {len(out)} vs {len(data)})"})
         try:
             w2 = guarded(I.load, data, lazy, mode, iv)
-            views[tag] = I.pure_json(w2)
+            views[tag] = guarded(I.pure_json, w2)
         except Exception as e:
             fails.append({"clause": "lazy-fields", "mode": tag, "what": f"exception {type(e).__name__}: {str(e)[:120]}"})
     if len(set(views.values())) > 1:
@@ -303,6 +303,8 @@ def case_key(want: str) -> tuple:
 def check_generated(ch: Channel, cases, outs, json_every=1):
     dec = run_driver(["boxdec " + " ".join(G.ctx_tokens(ctx)) + " " + o for (f, ctx), o in zip(cases, outs)])
     for idx, ((forest, ctx), o, d) in enumerate(zip(cases, outs, dec)):
+        if len(ch.oracle_failures) >= 20 or len(ch.disagreements) >= 60:
+            break      # enough to report; the verdict is already a violation
         ch.evaluations += 1
         want = " ".join(G.forest_tokens(forest)) or "empty"
         if o == "bad-op":
@@ -326,7 +328,7 @@ def check_generated(ch: Channel, cases, outs, json_every=1):
             tag = ("lazy" if lazy else "eager") + "/" + mode
             try:
                 w = guarded(I.load, data, lazy, mode, ctx[0])
-                got = I.impl_tokens(w, data)
+                got = guarded(I.impl_tokens, w, data)
                 enc = guarded(I.encode, w)
             except Exception as e:
                 got, enc = f"exception:{type(e).__name__}", None
@@ -373,7 +375,7 @@ def check_fixtures(ch: Channel, ctx, mdat_budget: int):
         # the whole file through the real library (Layer C)
         ch.evaluations += 1
         ch.count("fixture-file")
-        fails = oracle_roundtrip(data, iv)
+        fails = oracle_roundtrip(data, iv) if len(ch.oracle_failures) < 6 else []
         if fails:
             ch.oracle_failures.append(failure(fails, data[:0], iv, {"fixture": str(path.relative_to(FIXTURES)),
                                                                    "regions": sorted(regions(data))}))
@@ -382,10 +384,19 @@ def check_fixtures(ch: Channel, ctx, mdat_budget: int):
     for (path, n, iv), out, line in zip(meta, outs, lines):
         ch.evaluations += 1
         ch.count("fixture-box:" + n.type.decode("latin-1"))
+        if len(ch.disagreements) >= 60:
+            break
         if path not in cache:
             data = path.read_bytes()
             cache.clear()
-            cache[path] = (data, {lazy: I.load(data, lazy, "r", iv) for lazy in (False, True)})
+            wr = {}
+            for lazy in (False, True):
+                try:
+                    wr[lazy] = guarded(I.load, data, lazy, "r", iv)
+                except Exception as e:
+                    ch.disagreements.append({"what": f"library cannot load the fixture: {type(e).__name__}",
+                                             "fixture": path.name, "lazy": lazy})
+            cache[path] = (data, wr)
         data, wraps = cache[path]
         for lazy, w in wraps.items():
             atom = next((a for a in w.children if a.position == n.pos), None)
@@ -393,7 +404,10 @@ def check_fixtures(ch: Channel, ctx, mdat_budget: int):
                 ch.disagreements.append({"what": "library has no top-level box where the walker sees one",
                                          "fixture": path.name, "pos": n.pos})
                 continue
-            got = " ".join(G.tokens(I.tree_of(atom, data)))
+            try:
+                got = " ".join(G.tokens(guarded(I.tree_of, atom, data)))
+            except Exception as e:
+                got = f"exception:{type(e).__name__}"
             if got != out:
                 ch.disagreements.append({"what": "model decodes other fields than the library", "fixture": path.name,
                                          "pos": n.pos, "lazy": lazy, "model": out[:500], "impl": got[:500]})
@@ -411,7 +425,7 @@ def ch_boxcodec(ctx):
         "distinct non-mdat fixture box. The Layer-C oracle (parse->encode == input, eager == lazy field values, "
         "JSON round trip) runs on the same inputs and on the whole fixture files."))
     rng = ctx.rng("boxcodec")
-    n = ctx.scale(700, 9000)
+    n = ctx.scale(700, 22000)
     cases = [G.gen_forest(rng, ctx.thorough and i % 7 == 0) for i in range(n)]
     try:
         outs = encode_cases(cases)
@@ -440,7 +454,7 @@ def ch_tfdtset(ctx):
                 if v0 == 0 and a >= 2**32:
                     continue
                 cases.append((v0, a, b))
-    for _ in range(ctx.scale(300, 5000)):
+    for _ in range(ctx.scale(300, 12000)):
         v0 = rng.choice([0, 0, 1])
         cases.append((v0, G.bnd(rng, 32 if v0 == 0 else 64), G.bnd(rng, 64)))
     outs = run_driver([f"tfdtset {v0} 0 {a} {b}" for v0, a, b in cases])
@@ -594,7 +608,7 @@ def edit_oracle(data, ctx, edits, tracked, child_bytes):
     for lazy in (False, True):
         tag = "lazy" if lazy else "eager"
         try:
-            sizes, metas, out, errs = run_edit_impl(data, ctx, edits, lazy, child_bytes)
+            sizes, metas, out, errs = guarded(run_edit_impl, data, ctx, edits, lazy, child_bytes)
         except Exception as e:
             fails.append({"clause": "edit-sizes", "mode": tag, "what": f"exception {type(e).__name__}: {str(e)[:120]}"})
             continue
@@ -636,7 +650,7 @@ def ch_boxedit(ctx):
         "position of every box after encode(), output bytes. Non-trivial = distinct case with >= 2 edits. Oracle: "
         "independent walker over the output (sizes fit, children fill parents, attributes equal the walker's)."))
     rng = ctx.rng("boxedit")
-    n = ctx.scale(250, 4000)
+    n = ctx.scale(250, 9000)
     cases = []
     for i in range(n):
         root, c = gen_edit_case(rng, ctx.thorough and i % 5 == 0)
@@ -661,6 +675,8 @@ def ch_boxedit(ctx):
             lines.append("boxedit " + " ".join(G.ctx_tokens(c)) + " " + hexs(d) + " " + " ".join(toks))
         outs = run_driver(lines)
         for (root, c, es), d, o, line in zip(cases, datas, outs, lines):
+            if len(ch.oracle_failures) >= 20 or len(ch.disagreements) >= 60:
+                break
             ch.evaluations += 1
             ch.count("edits=%d" % len(es))
             for t, _, _ in es:
@@ -673,7 +689,7 @@ def ch_boxedit(ctx):
             parts = o.split(" ", 3)
             for lazy in (False, True):
                 try:
-                    sizes, metas, out, errs = run_edit_impl(d, c, impl_edits, lazy, child_bytes)
+                    sizes, metas, out, errs = guarded(run_edit_impl, d, c, impl_edits, lazy, child_bytes)
                     got = [sizes, metas, hexs(out)]
                     if errs:
                         got = ["exception:" + errs[0]]
@@ -746,7 +762,7 @@ def ch_boxlazy(ctx):
         "touched and one untouched box"))
     rng = ctx.rng("boxlazy")
     cases = []
-    for _ in range(ctx.scale(150, 2500)):
+    for _ in range(ctx.scale(150, 5000)):
         root, c = gen_edit_case(rng, False)
         paths = [p for p, _ in shadow_paths(root) if p]
         touched = [p for p in paths if rng.random() < .4]
@@ -759,16 +775,20 @@ def ch_boxlazy(ctx):
             lines.append("boxlazy " + " ".join(G.ctx_tokens(c)) + f" {o} {ps}")
         outs = run_driver(lines)
         for (root, c, touched, total), o, res in zip(cases, enc, outs):
+            if len(ch.oracle_failures) >= 20 or len(ch.disagreements) >= 60:
+                break
             ch.evaluations += 1
             data = bytes.fromhex(o)
             if touched and len(touched) < total:
                 ch.nontrivial.add((o, tuple(touched)))
             ch.count("touched=%d%%" % (10 * (10 * len(touched) // max(1, total))))
             try:
-                w = I.load(data, True, "r", c[0])
-                for p in touched:
-                    I.node_at(w.children[0], p)
-                out = guarded(I.encode, w)
+                def touch():
+                    w = I.load(data, True, "r", c[0])
+                    for p in touched:
+                        I.node_at(w.children[0], p)
+                    return I.encode(w)
+                out = guarded(touch)
                 impl = hexs(out) + " same"
             except Exception as e:
                 impl = f"exception:{type(e).__name__}"
@@ -790,7 +810,7 @@ def ch_boxwalk(ctx):
         "generated forests, intact and with one size field / length corrupted, judged by the model's payload-agnostic "
         "walker (walkOk) and by the independent Python walker; non-trivial = distinct corrupted input"))
     rng = ctx.rng("boxwalk")
-    cases = [G.gen_forest(rng, False) for _ in range(ctx.scale(200, 3000))]
+    cases = [G.gen_forest(rng, False) for _ in range(ctx.scale(200, 6000))]
     try:
         outs = encode_cases(cases)
         inputs = []
@@ -883,7 +903,7 @@ def ch_classes_diff(ctx):
                 if name not in DIFF_ONLY:
                     continue
                 blob = data[n.pos:n.end]
-                if (name, blob) in seen:
+                if (name, blob) in seen or len(ch.oracle_failures) >= 20:
                     continue
                 seen.add((name, blob))
                 ch.evaluations += 1
@@ -894,18 +914,18 @@ def ch_classes_diff(ctx):
                 for lazy in (False, True):
                     try:
                         w = guarded(I.load, base, lazy, "rw", iv)
-                        atom = _find(w, n.pos - top.pos)
+                        atom = guarded(_find, w, n.pos - top.pos)
                         if atom is None:
                             ch.errors.append(f"{path.name}: no object for {name} at {n.pos}")
                             continue
-                        out = atom.encode()
+                        out = guarded(atom.encode)
                         if out != blob:
                             ch.oracle_failures.append({"kind": "roundtrip", "data": base.hex(), "iv": iv, "class": name,
                                                        "failures": [{"clause": "roundtrip", "mode": "lazy" if lazy else "eager",
                                                                      "what": f"{name} at {n.pos - top.pos} encodes to other bytes"}],
                                                        "regions": sorted(regions(base))})
                             continue
-                        back = m.Mp4Atom.fromJSON(atom.toJSON()).encode()
+                        back = guarded(lambda: m.Mp4Atom.fromJSON(atom.toJSON()).encode())
                         if back != blob:
                             ch.oracle_failures.append({"kind": "json", "data": base.hex(), "iv": iv, "class": name,
                                                        "failures": [{"clause": "json", "what": f"{name} JSON round trip differs"}],
@@ -917,7 +937,7 @@ def ch_classes_diff(ctx):
                             vals = {k: G.bnd(rng, bits) for k, bits in fields}
                             for k, v in vals.items():
                                 setattr(a2, k, v)
-                            e1 = a2.encode()
+                            e1 = guarded(a2.encode)
                             a3 = _reparse(m, a2, e1, w2, iv)
                             ch.evaluations += 1
                             ch.nontrivial.add((name, tuple(sorted(vals.items()))))
